@@ -6,8 +6,8 @@ ids="$@"; [ -z "$ids" ] && ids=$(ls seeded | grep -E '^C[0-9]+-[ab]$')
 : > seeded/RESULTS.txt
 for s in $ids; do
   p=${s%-*}
-  if ! git -C /repo apply --check seeded/$s/patch.diff 2>/dev/null; then echo "$s: patch does not apply to the current /repo" | tee -a seeded/RESULTS.txt; continue; fi
-  git -C /repo apply seeded/$s/patch.diff
+  if ! git -C /repo apply --check /verif/seeded/$s/patch.diff 2>/dev/null; then echo "$s: patch does not apply to the current /repo" | tee -a seeded/RESULTS.txt; continue; fi
+  git -C /repo apply /verif/seeded/$s/patch.diff
   out=$(tools/check $p quick 2>&1); rc=$?
   git -C /repo checkout -- .
   v=$(echo "$out" | grep -c '^VIOLATION')
